@@ -243,6 +243,10 @@ func canon(v ssa.Value, d int) string {
 		if x.Value.Kind() == constant.String {
 			return fmt.Sprintf("%q", constant.StringVal(x.Value))
 		}
+		if x.Value.Kind() == constant.Float {
+			f, _ := constant.Float64Val(x.Value)
+			return fmt.Sprintf("%g", f)
+		}
 		return x.Value.ExactString()
 	case *ssa.Parameter:
 		for i, p := range x.Parent().Params {
@@ -874,4 +878,92 @@ func MustPassUse(fn *ssa.Function, u Use, atom Atom) (ok bool, nGuards int, path
 		}
 	}
 	return MustPassFrom(fn, fn.Blocks[0], u.At, atom, cut)
+}
+
+// BindingOf returns the value bound to free variable fv at the (unique) MakeClosure that creates
+// fv's function in its parent, or nil.
+func BindingOf(fv *ssa.FreeVar) ssa.Value {
+	fn := fv.Parent()
+	parent := fn.Parent()
+	if parent == nil {
+		return nil
+	}
+	idx := -1
+	for i, f := range fn.FreeVars {
+		if f == fv {
+			idx = i
+		}
+	}
+	var found ssa.Value
+	n := 0
+	InstrsOf(parent, func(in Instruction) {
+		if mc, ok := in.(*ssa.MakeClosure); ok && mc.Fn == ssa.Value(fn) && idx >= 0 && idx < len(mc.Bindings) {
+			found = mc.Bindings[idx]
+			n++
+		}
+	})
+	if n != 1 {
+		return nil
+	}
+	return found
+}
+
+// Instruction is an alias so helper signatures read naturally.
+type Instruction = ssa.Instruction
+
+// Resolve follows loads of single-assignment variables (locals and captured variables) to the
+// value that was assigned: `x := e` … `x` → e. Stops at anything assigned more than once.
+func Resolve(v ssa.Value) ssa.Value {
+	for i := 0; i < 10; i++ {
+		u, ok := v.(*ssa.UnOp)
+		if !ok || u.Op != token.MUL {
+			return v
+		}
+		addr := u.X
+		if fv, isFV := addr.(*ssa.FreeVar); isFV {
+			b := BindingOf(fv)
+			if b == nil {
+				return v
+			}
+			addr = b
+		}
+		a, isAlloc := addr.(*ssa.Alloc)
+		if !isAlloc {
+			return v
+		}
+		sts := StoresTo(a)
+		// stores from closures that capture the variable are not visible here; be conservative
+		if len(sts) != 1 || capturedAndStored(a) {
+			return v
+		}
+		v = sts[0].Val
+	}
+	return v
+}
+
+// capturedAndStored reports whether alloc a is captured by a closure that stores to it.
+func capturedAndStored(a *ssa.Alloc) bool {
+	refs := a.Referrers()
+	if refs == nil {
+		return false
+	}
+	for _, r := range *refs {
+		mc, ok := r.(*ssa.MakeClosure)
+		if !ok {
+			continue
+		}
+		fn, _ := mc.Fn.(*ssa.Function)
+		if fn == nil {
+			continue
+		}
+		for i, b := range mc.Bindings {
+			if b != ssa.Value(a) || i >= len(fn.FreeVars) {
+				continue
+			}
+			if len(StoresTo(fn.FreeVars[i])) > 0 {
+				return true
+			}
+		}
+	}
+	return false
 }
